@@ -247,6 +247,7 @@ func (fg *FnGen) doCall(fr *Frame, site ssa.Instruction, c *ssa.CallCommon, st *
 	// monitors: before
 	fg.monitorBefore(fr, d, args, argTypes, st, reach, pos)
 	res, st2 := fg.dispatchCall(fr, site, c, d, args, argTypes, st, reach, pos, name)
+	fg.bumpClock(res, d.sig)
 	st2 = fg.monitorAfter(fr, d, args, res, argTypes, st2, reach)
 	return res, st2
 }
@@ -280,7 +281,16 @@ func (fg *FnGen) dispatchCall(fr *Frame, site ssa.Instruction, c *ssa.CallCommon
 				fg.pendingBindings = append(fg.pendingBindings, fg.val(fr, b))
 			}
 		}
-		return fg.inline(fr, d.static, args, st, reach, name)
+		hc, na, no := fg.havocCount, len(fg.assumes), len(fg.obls)
+		ires, ist := fg.inline(fr, d.static, args, st, reach, name)
+		if fg.havocCount > hc && len(d.static.FreeVars) == 0 && allValueOnly(argTypes) {
+			// the inlined body reached a call with unknown effects, but the callee only received values: it cannot reach
+			// the caller's objects; keep the heap, forget the imprecise inlining
+			fg.assumes, fg.obls = fg.assumes[:na], fg.obls[:no]
+			fg.g.useTrusted("calls that pass only value-typed arguments leave the caller-visible heap unchanged: " + d.short)
+			return fg.freshResults(fr, name, d.sig), st
+		}
+		return ires, ist
 	}
 	// a callee that receives only value-typed arguments (no pointers, slices, maps, interfaces, funcs) cannot reach the
 	// caller's objects except through package-level state
